@@ -299,6 +299,11 @@ func propC03(c *Check) {
 	if !capOK {
 		c.Violated("R5", "cap-shape @ "+FuncKey(vd), p.Pos(vd.Pos()), "min(cap, tax) selection not established reason=not-established")
 	}
+	// "always smaller than the value" needs rate < 10000 in every parameter setting the module accepts: the
+	// execution-layer updates (C20/R1) and the settings accepted at genesis (Params.Validate, run by InitGenesis)
+	pv := p.MustFn("x/bitcoin/types.Params.Validate")
+	c.RequireFact(pv, "R5", "accepted-rate-below-100%", lit(EQ("0", "$0.DepositTaxRate"))+"|"+patLT("$0.DepositTaxRate", "10000"), nil, "")
+	c.Depend("R5", "C20", propC20, map[string]bool{"R1": true}, "a tax rate update of 100% or more would let the tax reach the deposit value")
 
 	// R3 in NewDeposits
 	nd := p.MustFn("x/bitcoin/keeper.msgServer.NewDeposits")
